@@ -167,6 +167,12 @@ def check(ctx):
             hf = {canon_attr(m, c, n.attr) for n in ast.walk(hfn) if isinstance(n, ast.Attribute) and isinstance(n.value, ast.Name) and n.value.id == self_h}
         h_paths = field_paths(prov, hf)
         ident = [ast.unparse(n) for n in ast.walk(hfn) if isinstance(n, ast.Call) and ast.unparse(n.func) in ("id", "object.__hash__", "super().__hash__")]
+        if hsrc in ("hash(repr(%s))" % self_h, "hash(super().__repr__())"):
+            # the hash is the hash of the repr: the repr must not depend on WHICH object it is either (`self is gate`)
+            self_r = rfn.args.args[0].arg
+            ident += [ast.unparse(n) for n in ast.walk(rfn) if isinstance(n, ast.Compare) and any(isinstance(o, (ast.Is, ast.IsNot)) for o in n.ops)
+                      and any(isinstance(x, ast.Name) and x.id == self_r for x in ast.walk(n))
+                      and not all(isinstance(c_, ast.Constant) for c_ in n.comparators)]
         ctx.ob("R03.2", c.q + ":hash-not-identity", not ident, found=ident or "no use of object identity", required="the hash must not depend on object identity (equal values are distinct objects)",
                mod=ho.mod, node=hfn, sig="hash-identity", trivial=True)
         extra = sorted(p for p in h_paths if not covered(p, eq_paths) and not p.startswith("self."))
